@@ -100,7 +100,7 @@ def c03(tier):
     # buses with taps and long thin paths: cells met in an order unrelated to how they are connected, so that the
     # greedy grouping needs several passes
     for i in range(nrandom // 6):
-        texts.append(gen.comb_grid(r) if i % 2 == 0 else gen.walk_grid(r))
+        texts.append(gen.comb_grid(r) if i % 2 == 0 else (gen.walk_grid(r) if i % 4 == 1 else gen.hatch_grid(r)))
     texts = gen.dedup(texts)
     observe_events(run, texts, ["C03"], "random-grid")
     run.samples.append({"input": texts[0]})
@@ -703,6 +703,7 @@ def c09(tier):
             for _ in range(r.randint(1, 3)):
                 lower[r.randrange(L + 2)] = bot
             corpus.append(" " * r.randint(0, 1) + top * L + "\n" + "".join(lower).rstrip())
+    corpus += [gen.hatch_grid(r) for _ in range(12)] + [gen.comb_grid(r) for _ in range(12)]
     # large structured inputs: many groups open between two pieces of one run
     big = []
     for i in range(12 if tier == "quick" else 200):
@@ -893,6 +894,9 @@ def sink_cases(r, n, marker_prefix="mk"):
                 filler = ["fill:red;", "stroke:blue", "stroke-width:2"]
                 entries = ([(name, r.choice(filler)) for _ in range(r.randint(0, 2))] + entries
                            + [(r.choice([name, "zz9"]), r.choice(filler)) for _ in range(r.randint(0, 2))])
+            if r.random() < 0.3:
+                # the payload inside a declaration block laid out over several lines
+                entries = [(nm_, ("\n  fill: red;\n  " + dc_ + "\n") if dc_ == p else dc_) for (nm_, dc_) in entries]
             t = art + "\n# Legend:\n" + "".join("%s = {%s}\n" % e for e in entries)
             exp_s = [p]
         out.append((t, chan, marker, exp_t, exp_s))
@@ -975,6 +979,8 @@ def c02(tier):
         cases.append((' "' + q + '" --', "quoted", [[ord(ch) for ch in q]], []))
         d = hst.replace("{", "(").replace("}", ")")
         cases.append(("a\n# Legend:\nk = {" + d + "}\n", "legend", [], [[ord(ch) for ch in d]]))
+        # a declaration block laid out over several lines (the layout of the repository's own examples)
+        cases.append(("a\n# Legend:\nk = {\n  fill: red;\n  " + d + "\n}\nm = {x:y}\n", "legend", [], [[ord(ch) for ch in d]]))
         # the same class declared twice, the hostile string in the later declaration
         cases.append(("a\n# Legend:\nk = {fill:red}\nj = {x:y}\nk = {" + d + "}\n", "legend", [], [[ord(ch) for ch in d]]))
     # the name channels: characters that XML cannot carry, markup characters and non-ASCII letters inside a {tag} in a
@@ -1799,7 +1805,9 @@ def c01(tier):
     else:
         big = [gen.random_grid(r, 80, 40, "-|+.' ", 0.9), "-" * 4000, gen.diagonal(150),
                "\n".join(" " * i + "+" + "-" * (2 * (60 - i)) + "+" for i in range(0, 60))]
-    texts += big
+    # structures whose grouping needs one merge pass per element (a bound on the number of passes turns into a panic
+    # or a wrong result): wide combs and hatched triangles
+    texts += big + ["| " * k_ + "\n" + "+-" * k_ for k_ in (70, 150, 300)] + [gen.hatch_grid(r) for _ in range(6)] + [gen.comb_grid(r) for _ in range(12)]
     cases = []
     # finite positive scales from the smallest to just below the largest f32 (at the top lengths overflow to inf)
     scales = [1e-30, 0.5, 8.0, 37.5, 1e30, 1e38, 3e38, 3.4e38, 1.2e-38]
@@ -2034,6 +2042,8 @@ def c19(tier):
     texts += ["+--+\n|ab|\n+--+", "o-->*", gen.box(5, 1, "round", "{a}") + "\n# Legend:\na = {fill:red}"]
     # a backslash followed by a letter other than n is two ordinary characters in every input mode
     texts += ["a\\tb", "\\to\n \\", "x\\ty \\r \\0", "\\ \\t\n \\"] * 3
+    # a leading byte order mark (or any other invisible character) is part of the text in every mode
+    texts += ["\ufeff+--+\n|  |\n+--+", "\ufeffab -->", "\u200b| x", " \n\n+-+"] * 3
     convert, convert_many = lib_converter()
     work = os.path.join(common.rundir(), "cli")
     os.makedirs(work, exist_ok=True)
